@@ -344,7 +344,17 @@ def run(ctx, config='rel-all'):
             okr = any(any(t[0] == 'agg' and t[1].endswith('Range') and field_of(t, 'start') == ('param', 2) and m.canon(field_of(t, 'end'))[0] == LEN for t in subterms(v) if isinstance(t, tuple) and t) for v in rng)
             check('truncate', 'the loop runs over len_arg .. self.len', okr)
             cur = [(l, v) for l, v in rec['init'].items() if m.eq(v, slot(LEN))]
-            check('truncate', 'the cursor starts at BASE + len', len(cur) == 1)
+            revs = [e for e in m.own if e.kind == 'call' and (e.callee or '').endswith('Iterator::rev') and e.args and e.args[0][0] == 'agg' and e.args[0][1].endswith('Range')
+                    and field_of(e.args[0], 'start') == ('param', 2) and m.canon(field_of(e.args[0], 'end'))[0] == LEN]
+            if not cur and revs:
+                # index form: `for i in (len_arg..self.len).rev() { drop_in_place(base.add(i)) }`
+                nx = [e for e in m.own if e.kind == 'call' and 'Rev<' in (e.callee or '') and (e.callee or '').endswith('Iterator>::next') and e.args and e.args[0][0] == 'addr' and e.args[0][1][0] == 'local'
+                      and any(rec['init'].get(e.args[0][1][2]) is not None and revs[0].ret in subterms(rec['init'][e.args[0][1][2]]) for _ in (0,))]
+                dip = [e for e in m.own if e.kind == 'drop_in_place']
+                oki = len(nx) == 1 and len(dip) == 1 and m.eq(dip[0].args[0], slot(('app', 'vproj', nx[0].ret, 'Some', '0')))
+                check('truncate', 'the slots dropped are BASE + i for i running DOWN over len_arg .. self.len', oki, show(dip[0].args[0])[:80] if dip else '')
+            else:
+                check('truncate', 'the cursor starts at BASE + len', len(cur) == 1)
             if cur:
                 l = cur[0][0]
                 symv = rec['sym'][l]
